@@ -84,6 +84,12 @@ func (l *queryLog) searchMemory(
 			// Go on and try to match anyway.
 		}
 
+		// Don't return the entries whose host or client has become ignored
+		// after they were added, just like the ones read from the files.
+		if l.isIgnored(e.QHost) || (e.client != nil && e.client.IgnoreQueryLog) {
+			return true
+		}
+
 		if params.match(e) {
 			entries = append(entries, e)
 		}
